@@ -210,13 +210,20 @@ FR = {'cls': 'FrameItem', 'fields': {'_origin_reference': 'int?'}}
 for _own, _passed in (('dict{}', 'dict{A:opq:arr,B:opq:arr}'), ('dict{A:opq:arr}', 'dict{A:opq:arr,B:opq:arr}'), ('dict{A:opq:arr}', 'none'),
                       ('dict{A:opq:arr,C:opq:arr}', 'dict{A:opq:arr}')):
     _nm = f'own={_own[4:].replace(":opq:arr", "")},passed={_passed[4:].replace(":opq:arr", "") if _passed != "none" else "None"}'
-    _ens = [('the-file-keeps-its-own-merged-dict-never-the-callers', 'self._data_dict is not data'),
-            ('the-wrapper-reads-the-merged-dict', 'result._data_source._data_source is self._data_dict'),
+    # C14 (from the property text: "no state ... (merged data) leaks from one write into another"): the arrays passed to a write are
+    # used for that write only - the specification's own dict is the same object with the same entries afterwards (frame: modifies=[]).
+    # C19: the wrapper reads a dict that is not the caller's; the caller's dict keeps its keys.
+    _W = 'result._data_source._data_source'
+    _own_keys = [k.split(':')[0] for k in _own[5:-1].split(',') if k]
+    _ens = [('the-wrapper-reads-a-dict-of-its-own-not-the-callers', f'{_W} is not data'),
             ('window-forwarded', 'result._data_source._from_idx == from_idx')]
+    _keys = []
     if _passed != 'none':
         _keys = [k.split(':')[0] for k in _passed[5:-1].split(',')]
-        _ens += [(f'data-passed-to-this-write-wins-for-{k}', f"self._data_dict['{k}'] is data['{k}']") for k in _keys]
+        _ens += [(f'data-passed-to-this-write-wins-for-{k}', f"{_W}['{k}'] is data['{k}']") for k in _keys]
         _ens += [('callers-dict-keeps-its-keys', f'len(data) == {len(_keys)}')]
+    _ens += [(f'data-given-at-channel-creation-is-used-for-{k}', f"{_W}['{k}'] is self._data_dict['{k}']") for k in _own_keys if k not in _keys]
+    _ens += [('nothing-else-is-read', f'len({_W}) == {len(set(_keys) | set(_own_keys))}')]
     CONTRACTS[f'LogicalFile._make_multi_frame_data[{_nm}]'] = dict(
         target='LogicalFile._make_multi_frame_data', props=['C03', 'C11', 'C14', 'C19'],
         self_fields={'_data_dict': _own}, params={'fr': FR, 'data': _passed, 'from_idx': 'int', 'to_idx': 'int?', 'kwargs': {}},
@@ -225,6 +232,7 @@ for _own, _passed in (('dict{}', 'dict{A:opq:arr,B:opq:arr}'), ('dict{A:opq:arr}
                '_check_data': dict(returns='none', raises=True), 'setup_from_data': dict(returns='none', raises=True),
                '_check_type': dict(returns='none', raises=True)},
         may_raise=['AnyException', 'ValueError', 'TypeError', 'RuntimeError'],
+        modifies=[], exc_modifies=[],
         ensures=_ens)
 
 for _t in ('dtype', 'sdtype', 'ndarray', 'sarray', 'source', 'chunk', 'slot', 'row', 'arr'):
